@@ -4,8 +4,8 @@ set -e
 D="$(readlink -f "$1")"; shift
 cd /repo
 git diff --quiet || { echo "repo dirty"; exit 2; }
-git apply --check "$D" || { echo "DOES NOT APPLY: $D"; exit 3; }
-git apply "$D"
+git apply --check --include="mitmproxy/*" "$D" || { echo "DOES NOT APPLY: $D"; exit 3; }
+git apply --include="mitmproxy/*" "$D"
 git add -A
 git commit -q -m "$1"
 git log --format='%h %s' -1
